@@ -36,10 +36,12 @@ const MAPFILE: &str = r#"!eclmap
 22 b
 23 d
 24 col
+25 pad
 !ins_signatures
 21 SS
 23 S
 24 S(enum="E1")S
+25 S__
 30 S
 !timeline_ins_names
 5 b
@@ -105,10 +107,10 @@ fn build_env(truth: &mut truth::Truth, mapfile_text: &str, game: Game, names: &m
     for (l, op) in sig_keys {
         let name = ast::CallableName::Ins { opcode: op as u16, language: Some(l) };
         if let Ok(sig) = ctx.func_signature_from_ast(&name) {
-            let cols: Vec<String> = sig.params.iter().map(|p| match &p.ty_color {
+            let cols: Vec<String> = sig.params.iter().map(|p| format!("({}, {})", match &p.ty_color {
                 Some(c) => { let TypeColor::Enum(e) = &c.value; format!("Some {}", names.get(e.as_str())) },
                 None => "None".to_string(),
-            }).collect();
+            }, if p.default.is_some() { "true" } else { "false" })).collect();
             sigs.push(format!("({}, {}, [{}])", lang_num(l), op, cols.join("; ")));
         }
     }
@@ -520,7 +522,7 @@ enum Pre { Decl, Assign, Call, If, Loop, Block, Return, ConstItem(Vec<String>), 
 struct G<'a> { rng: &'a mut Rng, hist: &'a mut BTreeMap<&'static str, u64>, nscript: usize, budget: i32, frames: Vec<Frame>, lang: GLang, wild: u64 }
 
 const VAR_NAMES: [&str; 7] = ["a", "b", "c", "d", "PI", "true", "e"];
-const FUN_NAMES: [&str; 6] = ["a", "b", "c", "d", "col", "e"];
+const FUN_NAMES: [&str; 7] = ["a", "b", "c", "d", "col", "e", "pad"];
 
 impl<'a> G<'a> {
     fn bump(&mut self, k: &'static str) { *self.hist.entry(k).or_insert(0) += 1; }
@@ -542,7 +544,7 @@ impl<'a> G<'a> {
     fn fun_ok(&self, name: &str) -> Option<usize> {
         for f in self.frames.iter().rev() { if let Some((_, n)) = f.funcs.iter().rev().find(|(n, _)| n == name) { return Some(*n); } }
         match (self.lang, name) {
-            (GLang::Ecl, "a") | (GLang::Ecl, "col") => Some(2), (GLang::Ecl, "d") => Some(1), (GLang::Ecl, "b") => Some(3),
+            (GLang::Ecl, "a") | (GLang::Ecl, "col") => Some(2), (GLang::Ecl, "d") | (GLang::Ecl, "pad") => Some(1), (GLang::Ecl, "b") => Some(3),
             (GLang::Timeline, "b") => Some(1), (GLang::Timeline, "c") => Some(3),
             _ => None,
         }
@@ -589,7 +591,7 @@ impl<'a> G<'a> {
         let raw_ok = self.lang != GLang::Const || self.rng.chance(1, 25);
         let (name, max) = if raw_ok && self.rng.chance(1, 6) {
             self.bump("call_raw_ins");
-            let (op, n) = *self.rng.pick(&[(21, 2), (22, 3), (23, 1), (24, 2), (30, 1), (5, 1)]);
+            let (op, n) = *self.rng.pick(&[(21, 2), (22, 3), (23, 1), (24, 2), (25, 1), (30, 1), (5, 1)]);
             (format!("ins_{}", op), if self.lang == GLang::Timeline { if op == 5 { 1 } else { 3 } } else if op == 5 { 3 } else { n })
         } else if self.rng.below(100) < self.wild {
             self.bump("call_blind"); (self.any_name(), 3)
@@ -600,7 +602,7 @@ impl<'a> G<'a> {
             let (n, k) = *self.rng.pick(&ok); (n.to_string(), k)
         };
         let mut nargs = (self.rng.below(4) as usize).min(max);
-        if self.rng.chance(1, 25) { self.bump("call_excess_args"); nargs = max + 1; }
+        if self.rng.chance(1, 25) { self.bump("call_excess_args"); nargs = max + 1 + self.rng.below(3) as usize; }
         let args: Vec<String> = (0..nargs).map(|_| self.expr(depth)).collect();
         format!("{}({})", name, args.join(", "))
     }
